@@ -24,6 +24,7 @@ import (
 	mrand "math/rand"
 	"reflect"
 	"runtime"
+	"runtime/metrics"
 	"sort"
 	"testing"
 	"unsafe"
@@ -626,24 +627,62 @@ type zzvOutcome struct {
 	alloc  uint64
 }
 
+var zzvConfirmed, zzvUnconfirmed int
+
+var zzvHeapSample = []metrics.Sample{{Name: "/gc/heap/allocs:bytes"}}
+
+// cumulative bytes allocated on the heap, without stopping the world (large objects are accounted
+// immediately, small ones when their span is refilled)
+func zzvHeapAllocs() uint64 {
+	metrics.Read(zzvHeapSample)
+	return zzvHeapSample[0].Value.Uint64()
+}
+
 // zzvDecode runs a decoder under recover; with measure it reports the bytes allocated during the call
-// (runtime.MemStats.TotalAlloc; single goroutine).
+// (single goroutine).  Fast measurement with runtime/metrics; a value above the bound is confirmed with
+// the exact runtime.MemStats.TotalAlloc (minimum of repeated calls) before it can become a verdict.
 func zzvDecode(c zzvCodec, in []byte, measure bool) (o zzvOutcome) {
-	var a, b runtime.MemStats
 	defer func() {
 		if r := recover(); r != nil {
 			o.panicv = r
 		}
 	}()
+	var a uint64
 	if measure {
-		runtime.ReadMemStats(&a)
+		a = zzvHeapAllocs()
 	}
 	o.msg, o.err = c.dec(in)
 	if measure {
-		runtime.ReadMemStats(&b)
-		o.alloc = b.TotalAlloc - a.TotalAlloc
+		o.alloc = zzvHeapAllocs() - a
+		// the fast metric may lag by the partly used spans of the small size classes: confirm from half the constant on
+		if o.alloc+zzvAllocConst/2 > zzvAllocBound(len(in)) {
+			if zzvConfirmed < 40 { // enough confirmed examples; further ones are counted unconfirmed and not reported
+				zzvConfirmed++
+				o.alloc = zzvExactAlloc(c, in)
+			} else if o.alloc > zzvAllocBound(len(in)) {
+				zzvUnconfirmed++
+				o.alloc = 0
+			}
+		}
 	}
 	return o
+}
+
+func zzvExactAlloc(c zzvCodec, in []byte) uint64 {
+	min := ^uint64(0)
+	for i := 0; i < 3; i++ {
+		func() {
+			defer func() { recover() }()
+			var a, b runtime.MemStats
+			runtime.ReadMemStats(&a)
+			c.dec(in)
+			runtime.ReadMemStats(&b)
+			if d := b.TotalAlloc - a.TotalAlloc; d < min {
+				min = d
+			}
+		}()
+	}
+	return min
 }
 
 func zzvEncode(c zzvCodec, m any) (out []byte, panicv any) {
@@ -689,16 +728,6 @@ func zzvHostileInput(st *zzvStats, ty string, c zzvCodec, in []byte, measure boo
 	o := zzvDecode(c, in, measure)
 	if measure {
 		st.measured++
-		if o.alloc > zzvAllocBound(len(in)) {
-			// re-measure: background allocation must not produce a verdict
-			min := o.alloc
-			for i := 0; i < 2; i++ {
-				if a := zzvDecode(c, in, true).alloc; a < min {
-					min = a
-				}
-			}
-			o.alloc = min
-		}
 		if o.alloc > st.maxAlloc {
 			st.maxAlloc, st.maxAllocTy = o.alloc, ty
 		}
@@ -728,7 +757,7 @@ func zzvHostileInput(st *zzvStats, ty string, c zzvCodec, in []byte, measure boo
 			in, map[string]any{"origin": origin, "reencoded": zzvHex(e1)})
 		return
 	}
-	if zzvNormalize(o.msg) != zzvNormalize(o2.msg) {
+	if !reflect.DeepEqual(o.msg, o2.msg) && zzvNormalize(o.msg) != zzvNormalize(o2.msg) {
 		st.report("reencode", ty, "decoded message re-encodes to a different message", in,
 			map[string]any{"origin": origin, "reencoded": zzvHex(e1)})
 	}
@@ -782,8 +811,8 @@ func TestZZVCodec(t *testing.T) {
 	st := &zzvStats{distinct: map[[32]byte]struct{}{}, viol: map[string]int{}}
 	nMut := zzvEnvInt("ZZV_MUT", 40)            // random mutations per shape
 	nRand := zzvEnvInt("ZZV_RAND", 400)          // random inputs per decoder
-	fullPrefix := zzvEnvInt("ZZV_PREFIX_FULL", 600) // encodings up to this length: every strict prefix
-	samplePrefix := zzvEnvInt("ZZV_PREFIX_SAMPLE", 200)
+	fullPrefix := zzvEnvInt("ZZV_PREFIX_FULL", 160) // encodings up to this length: every strict prefix
+	samplePrefix := zzvEnvInt("ZZV_PREFIX_SAMPLE", 40)
 
 	zzvEmit("sizes", map[string]any{"elem": []int{int(unsafe.Sizeof(RouteAdvertise{})), int(unsafe.Sizeof(RouteWithdraw{})),
 		int(unsafe.Sizeof(NodeInfoAdvertise{}))}})
@@ -808,18 +837,8 @@ func TestZZVCodec(t *testing.T) {
 				map[string]any{"vec": vi, "sk": v.Sk})
 			continue
 		}
-		// binding: the real encoder produces exactly the spec layout
-		if len(enc) != v.Len || !bytes.Equal(enc, want) {
-			bindErr++
-			if bindErr <= 5 {
-				d := 0
-				for d < len(enc) && d < len(want) && enc[d] == want[d] {
-					d++
-				}
-				zzvEmit("bind", map[string]any{"ty": v.Ty, "vec": vi, "sk": v.Sk, "speclen": v.Len, "reallen": len(enc),
-					"firstdiff": d, "real": zzvHex(enc), "spec": zzvHex(want)})
-			}
-		}
+		// binding: the real encoder produces exactly the spec layout (reported below, with the round-trip result)
+		bindOK := len(enc) == v.Len && bytes.Equal(enc, want)
 		// verdict: lossless
 		o := zzvDecode(c, enc, true)
 		st.measured++
@@ -848,6 +867,18 @@ func TestZZVCodec(t *testing.T) {
 				st.report("roundtrip", v.Ty, "re-encoding the decoded message gives different bytes", enc, map[string]any{"vec": vi, "sk": v.Sk})
 			}
 		}
+		if !bindOK {
+			bindErr++
+			if bindErr <= 5 {
+				d := 0
+				for d < len(enc) && d < len(want) && enc[d] == want[d] {
+					d++
+				}
+				rtOK := o.panicv == nil && o.err == nil && zzvNormalize(o.msg) == zzvNormalize(m)
+				zzvEmit("bind", map[string]any{"ty": v.Ty, "vec": vi, "sk": v.Sk, "speclen": v.Len, "reallen": len(enc),
+					"firstdiff": d, "real": zzvHex(enc), "spec": zzvHex(want), "roundtrip_ok": rtOK})
+			}
+		}
 		if len(sample) < 4 && (vi%97 == 3 || v.Ty == "QueuedState" && len(enc) > 200 && len(enc) < 400 && len(sample) < 2) {
 			sample = append(sample, map[string]any{"ty": v.Ty, "sk": v.Sk, "len": len(enc), "bytes": zzvHex(enc)})
 		}
@@ -868,8 +899,8 @@ func TestZZVCodec(t *testing.T) {
 				}
 			}
 			step := 1
-			if len(cells) > 400 {
-				step = len(cells) / 400
+			if maxc := zzvEnvInt("ZZV_PREFIX_CELLS", 60); len(cells) > maxc {
+				step = len(cells) / maxc
 			}
 			for i := 0; i < len(cells); i += step {
 				try(cells[i] - 1)
@@ -889,11 +920,14 @@ func TestZZVCodec(t *testing.T) {
 			}
 			off := cells[ci]
 			ci++
-			if len(cells) > 60 && ci > 30 && ci < len(cells)-10 && rng.Intn(len(cells)/30+1) != 0 {
+			if len(cells) > 40 && ci > 16 && ci < len(cells)-8 && rng.Intn(len(cells)/12+1) != 0 {
 				continue // long lists: all cells near both ends, a seeded sample of the rest
 			}
 			max := uint64(1)<<(8*uint(r.N)) - 1
-			vals := []uint64{0, 1, uint64(r.V) - 1, uint64(r.V) + 1, uint64(r.V) * 2, max, max - 1, max / 2, 0x80 << (8 * uint(r.N-1))}
+			vals := []uint64{0, 1, uint64(r.V) - 1, uint64(r.V) + 1, max}
+			if zzvThorough() {
+				vals = append(vals, uint64(r.V)*2, max-1, max/2, 0x80<<(8*uint(r.N-1)))
+			}
 			for _, nv := range vals {
 				nv &= max
 				if nv == uint64(r.V) {
@@ -984,12 +1018,8 @@ func TestZZVCodec(t *testing.T) {
 		if off+2 <= len(buf) {
 			binary.BigEndian.PutUint16(buf[off:], uint16(h.H.Claimed))
 		}
-		o := zzvDecode(qs, buf, true)
-		for i := 0; i < 2 && o.alloc > uint64(h.Bound); i++ {
-			if a := zzvDecode(qs, buf, true).alloc; a < o.alloc {
-				o.alloc = a
-			}
-		}
+		o := zzvDecode(qs, buf, false)
+		o.alloc = zzvExactAlloc(qs, buf)
 		st.evals++
 		rec := map[string]any{"list": h.H.List, "claimed": h.H.Claimed, "nbytes": h.H.NBytes, "alloc": o.alloc,
 			"bound": h.Bound, "spec_prealloc": h.PreAlloc, "panic": o.panicv != nil, "err": o.err != nil}
@@ -1011,5 +1041,6 @@ func TestZZVCodec(t *testing.T) {
 		"byte_mutations": bytemuts, "random_inputs": randoms, "hostile": hostile, "evaluations": st.evals,
 		"accepted": st.accepted, "distinct_accepted": len(st.distinct), "alloc_measured": st.measured,
 		"max_alloc": st.maxAlloc, "max_alloc_type": st.maxAllocTy, "bind_errors": bindErr, "violations": viol,
+		"alloc_over_bound_unconfirmed": zzvUnconfirmed,
 		"violation_classes": st.viol, "samples": sample})
 }
